@@ -554,3 +554,59 @@ def coverage_touching(rng):
                 cells.append([r + [r[0]]])
     rng.shuffle(cells)
     return cells
+
+
+def clip_notch_case(rng):
+    """(A, B, label): A = a tall rectilinear polygon with notches cut in from the bottom and / or the top (and optionally a tall hole),
+    every vertical side subdivided into short segments, ring written from a random start in a random direction; B = a wide,
+    short rectangle (extra collinear vertices on its sides) crossing A at a height where some notch sticks out through B's top
+    or bottom edge.  With the result envelope this small the ring clipper of OverlayNG is active and emits rings with flat
+    caps lying on the clip box: the orientation / depth of the clipped ring must still be that of the original ring."""
+    W = rng.choice([10, 14, 20]); H = rng.choice([10, 16, 30]); step = rng.choice([1, 2, 2, 3])
+    xs = sorted(rng.sample(range(1, W), min(W - 1, rng.choice([2, 4, 4, 6]))))
+    nb = [(xs[i], xs[i + 1], rng.randint(2, H - 1)) for i in range(0, len(xs) - 1, 2) if rng.random() < 0.8]     # notches from the bottom: x0, x1, tip height
+    nt = [(a, b, rng.randint(1, H - 2)) for a, b, _ in nb if rng.random() < 0.0]
+    if rng.random() < 0.4:
+        xt = sorted(rng.sample(range(1, W), 2)); nt = [(xt[0], xt[1], rng.randint(1, H - 2))]                      # one notch from the top, tip height
+        nb = [n for n in nb if n[1] <= xt[0] or n[0] >= xt[1] or n[2] < nt[0][2]]
+    ring = [(0, 0)]
+    for a, b, h in nb:
+        ring += [(a, 0), (a, h), (b, h), (b, 0)]
+    ring += [(W, 0), (W, H)]
+    for a, b, h in reversed(nt):
+        ring += [(b, H), (b, h), (a, h), (a, H)]
+    ring += [(0, H), (0, 0)]
+    def dens(r):
+        out = [r[0]]
+        for p, q in zip(r, r[1:]):
+            if p[0] == q[0] and abs(q[1] - p[1]) > step:
+                s = 1 if q[1] > p[1] else -1
+                out += [(p[0], y) for y in range(p[1] + s * step, q[1], s * step)]
+            out.append(q)
+        return out
+    shell = dens(ring)
+    rings = [shell]
+    if rng.random() < 0.3 and not nt:
+        free = [x for x in range(1, W - 1) if all(not (a - 1 <= x <= b) for a, b, _ in nb)]
+        if free:
+            x = rng.choice(free)
+            if all(not (a - 1 <= x + 1 <= b + 1) for a, b, _ in nb):
+                hole = dens([(x, 1), (x, H - 1), (x + 1, H - 1), (x + 1, 1), (x, 1)])      # tall thin hole: behaves like a notch for the clipper
+                rings.append(hole)
+    def respell(r):
+        body = r[:-1]; k = rng.randrange(len(body)); body = body[k:] + body[:k]
+        if rng.random() < 0.5: body = body[::-1]
+        return body + [body[0]]
+    rings = [respell(r) for r in rings]
+    cands = [('b', h) for _, _, h in nb if h >= 2] + [('t', h) for _, _, h in nt if h <= H - 2]
+    kind, t = rng.choice(cands) if cands else ('b', H // 2)
+    if kind == 'b':          # bottom notch with tip at height t: B's top edge strictly below the tip, the notch pokes out through B's TOP
+        y1 = rng.randint(1, t - 1); y0 = max(-1, y1 - rng.randint(1, 3))
+    else:                    # top notch reaching down to t: B's bottom edge strictly above the tip, the notch pokes out through B's BOTTOM
+        y0 = rng.randint(t + 1, H - 1); y1 = min(H + 1, y0 + rng.randint(1, 3))
+    x0, x1 = (-1, W + 1) if rng.random() < 0.7 else (rng.randint(-1, 2), W + 1)
+    b = [(x0, y0), (rng.randint(x0 + 1, x1 - 1), y0), (x1, y0), (x1, y1), (x0, y1), (x0, y0)]
+    if rng.random() < 0.5: b = b[::-1]
+    sc = lambda r: [(M * p[0], M * p[1]) for p in r]
+    A = ('PG', [sc(r) for r in rings]); B = ('PG', [sc(b)])
+    return A, B, 'notch-through-clip-box/b%d-t%d-h%d' % (len(nb), len(nt), len(rings) - 1)
